@@ -163,7 +163,7 @@ prop("C14", quick={"runs": 6000}, thorough={"runs": 100000000, "budget_s": 600},
      "auxiliary (non-simulation) hash clause: 4 fresh OS processes register permutations / multiplicities of a type pool and print GobTypesHash().",
      rules=["C14.R1 imported caches equal the exporter's of the same name; every cache is requested", "C14.R2 exporter unchanged", "C14.R3 nothing imported on hash mismatch / unknown name / non-200",
             "C14.R4 body faults: subset of intact entries, Import returns nil", "C14.H1/H2 (auxiliary) hash independent of order and multiplicity, changes when a type is added"],
-     probes=["cache_imported", "importer_cache_unknown_to_exporter", "types_hash_fresh_process_evaluations"])
+     probes=["cache_imported", "importer_cache_unknown_to_exporter", "types_hash_fresh_process_evaluations", "concurrent_imports_from_one_handler"])
 prop("C15", quick={"runs": 9000}, thorough={"runs": 100000000, "budget_s": 600}, level="fault_enumeration",
      rule=TR_RULE + "InvalidationIndex over 1-3 cache names with 1-3 deleters each (real backends behind a fault wrapper), generated label/key incidence structures "
      "(several labels per key, shared keys, repeated labelling, unused labels, labelled-but-absent keys, duplicated label arguments). A third of the runs are "
